@@ -215,7 +215,14 @@ class Check:
         if self.exhaustive:
             coverage["exhaustive_subspaces"] = self.exhaustive
             coverage["exhaustive"] = all(self.exhaustive.values())
-        coverage.update({k: jsonable(v) for k, v in self.extra.items()})
+        reserved = {
+            "evaluations", "distinct_nontrivial", "rule", "samples", "states", "transitions", "traces_validated_against_impl",
+            "obligations", "discharged", "checker_cmd", "trusted_base", "programs", "disagreements_checked", "explanation", "exhaustive",
+        }  # fmt: skip
+        coverage.update({(f"x_{k}" if k in reserved else k): jsonable(v) for k, v in self.extra.items()})
+        if not coverage["samples"]:
+            # a check that recorded no explicit sample still shows what it ran: some of its case classes
+            coverage["samples"] = [{"case_class": c} for c in sorted(self.classes)[:MAX_SAMPLES]]
         ev = {
             "property_id": self.pid,
             "tier": self.tier,
